@@ -148,6 +148,8 @@ func TestC15DualUDP(t *testing.T) {
 		}
 		var hist []string
 		fail := func(format string, a ...any) {
+			// (timing-dependent failures are reported by rapid as "flaky": the text goes to the output too)
+			fmt.Printf("C15 (UDP, both families) %s\n", fmt.Sprintf(format, a...))
 			t.Fatalf("C15 (UDP, both families) %s\ntracker: %s\nhistory:\n  %s", fmt.Sprintf(format, a...), url, joinLines(hist))
 		}
 		labels := map[string]bool{}
@@ -185,10 +187,23 @@ func TestC15DualUDP(t *testing.T) {
 				p.interval = rapid.SampledFrom([]uint32{0, 60, 61, 299, 301, 600, 900, 1800, 3600, 86400}).Draw(t, "interval")
 				plan[f] = p
 			}
-			d.u4.install(func(k int, r udpRequest) [][]byte { return plan[0].datagrams(k, r, false) })
-			d.u6.install(func(k int, r udpRequest) [][]byte { return plan[1].datagrams(k, r, true) })
+			d.u4.install(func(k int, r udpRequest) [][]byte {
+				time.Sleep(plan[0].delay)
+				return plan[0].datagrams(k, r, false)
+			})
+			d.u6.install(func(k int, r udpRequest) [][]byte {
+				time.Sleep(plan[1].delay)
+				return plan[1].datagrams(k, r, true)
+			})
+			// the torrent may be slow to take each peer: the two families' replies
+			// are then being handed over at the same time
+			callbackDelay = rapid.SampledFrom([]time.Duration{0, 0, 0, 100 * time.Microsecond, 500 * time.Microsecond}).Draw(t, "callbackDelay")
+			if callbackDelay > 0 && len(plan[0].peers)+len(plan[1].peers) > 0 {
+				labels["dual-udp:slow-peer-callback"] = true
+			}
 			start := time.Now()
 			r := announce(tr, context.Background())
+			callbackDelay = 0
 			if r.timedOut {
 				t.Skip("inconclusive: an announce against loopback did not return within 120 s")
 			}
